@@ -743,7 +743,15 @@ def run_case(case: dict) -> dict:
                 async def _close():
                     await asyncio.wait_for(conn.close(), 3)
 
-                conn._thread.join(0.3)   # its thread dies when a statement finishes after the run's event loop is gone
+                # barrier: everything the run had queued for the sqlite thread is performed before the database is looked at
+                # (the thread dies when a statement finishes after the run's event loop is gone)
+                import time as _time
+                drained = threading.Event()
+                conn._tx.put_nowait((None, drained.set))
+                t_end = _time.time() + 5
+                while not drained.is_set() and conn._thread.is_alive() and _time.time() < t_end:
+                    _time.sleep(0.005)
+                conn._thread.join(0.05)
                 if conn._thread.is_alive():
                     asyncio.run(_close())
             except Exception:
